@@ -287,7 +287,8 @@ def worker(case: Dict[str, Any]) -> CaseResult:
         # `$NAME` as a whole value names an environment variable; a dollar sign anywhere else is a literal character
         literal_headers = {"X-Plain": "plain-value", "X-Dollar-Inside": "ab$$cd-2024", "X-Org": "org$team", "X-Trailing": "5$", "X-Braces": "a${b}c"}
         cfg_i["remote_schema_headers"] = dict({"Authorization": "$VF_C19_TOKEN", "X-Second": "$VF_C19_OTHER"}, **literal_headers)
-        os.environ["VF_C19_OTHER"] = "other-%d" % case["idx"]
+        # (the variable's VALUE may itself begin with a dollar sign - crypt-style hashes, some API keys: it is a value, not another reference)
+        os.environ["VF_C19_OTHER"] = ("$2y$10$hash-%d" if case["idx"] % 2 else "other-%d") % case["idx"]
         cfg_i["remote_schema_verify_ssl"] = verify
         g_i, c_i = generate(root, "pkg_introspection", cfg_i, None, queries, recorder=rec)
         variants.append(("introspection", g_i, c_i))
@@ -297,7 +298,7 @@ def worker(case: Dict[str, Any]) -> CaseResult:
             violations.append(Violation(PROP, "one-introspection-request", "%d requests" % len(rec.calls), fl, replay_case, mech="c19:one-request"))
         else:
             call = rec.calls[0]
-            want_headers = dict({"Authorization": "secret-%d" % case["idx"], "X-Second": "other-%d" % case["idx"]}, **literal_headers)
+            want_headers = dict({"Authorization": "secret-%d" % case["idx"], "X-Second": os.environ["VF_C19_OTHER"]}, **literal_headers)
             if call["headers"] != want_headers:
                 violations.append(Violation(PROP, "headers-sent", "headers %r expected %r" % (call["headers"], want_headers), fl, replay_case, mech="c19:headers-sent"))
             if call["verify"] is not verify:
@@ -331,7 +332,7 @@ def worker(case: Dict[str, Any]) -> CaseResult:
                     violations.append(Violation(PROP, "one-introspection-request", "graphqlschema strategy: %d requests" % len(rec2.calls), fl, replay_case, mech="c19:one-request"))
                 else:
                     call2 = rec2.calls[0]
-                    want2 = dict({"Authorization": "secret-%d" % case["idx"], "X-Second": "other-%d" % case["idx"]}, **literal_headers)
+                    want2 = dict({"Authorization": "secret-%d" % case["idx"], "X-Second": os.environ["VF_C19_OTHER"]}, **literal_headers)
                     if call2["headers"] != want2:
                         violations.append(Violation(PROP, "headers-sent", "graphqlschema strategy: headers %r expected %r" % (call2["headers"], want2), fl, replay_case, mech="c19:headers-sent"))
                     if call2["verify"] is not verify:
